@@ -101,7 +101,10 @@ func (o *c18Oracle) AfterStep(e *core.Engine, idx int, st *core.Step, stepErr er
 	ra := e.C.Ref().Tr.Committed(h)
 	if ra == nil {
 		if stepErr != nil && strings.Contains(stepErr.Error(), "validator") {
-			return nil // C10's subject (validator updates rejected by Tendermint)
+			// the real Tendermint BlockExecutor refused what the application returned at the end of the block:
+			// on a real network every node stops here (what exactly is wrong with the updates is C10's subject)
+			return []core.Violation{{Property: "C18", Oracle: "keeps-serving", Sig: "chain-halted:" + c18Suspects(st),
+				Msg: fmt.Sprintf("block %d could not be applied: %s; inputs of the block: %v", e.C.Height()+1, clipS(stepErr.Error(), 300), c18Labels(st))}}
 		}
 		return nil
 	}
